@@ -73,8 +73,14 @@ class Optional {
       : state_{std::move(other.state_)} {}
 
   // Constructs a non-empty Optional from a type U such that T{U()} is valid.
-  template <typename U, typename Enabled = std::enable_if_t<
-                            std::is_constructible<T, U>::value>>
+  // U may not be this Optional type (or a type derived from it, such as a table
+  // Entry): for T = bool the explicit conversion to bool makes T constructible
+  // from a non-const Optional lvalue and this constructor would be selected
+  // over the copy constructor.
+  template <typename U,
+            typename Enabled = std::enable_if_t<
+                std::is_constructible<T, U>::value &&
+                !std::is_base_of<Optional, std::decay_t<U>>::value>>
   constexpr Optional(U&& value) : state_{InPlace{}, std::forward<U>(value)} {}
 
   // In-place constructor with arbitrary argument forwarding.
@@ -152,10 +158,13 @@ class Optional {
     return *this;
   }
 
-  // Copy/move assignment from type U.
+  // Copy/move assignment from type U. As with the converting constructor, U may
+  // not be this Optional type or a type derived from it.
   template <typename U>
-  std::enable_if_t<std::is_constructible<T, U>::value, Optional&> operator=(
-      U&& value) {
+  std::enable_if_t<std::is_constructible<T, U>::value &&
+                       !std::is_base_of<Optional, std::decay_t<U>>::value,
+                   Optional&>
+  operator=(U&& value) {
     Assign(std::forward<U>(value));
     return *this;
   }
